@@ -135,6 +135,9 @@ def _lhs_str(term: PolyhedralTerm) -> str:  # noqa: WPS231
                     res += " - " + _number_to_string(-coeff) + " " + var.name
         first = False
     # res += " <= " + _number_to_string(self.constant)
+    if not res:
+        # a term without variables (its coefficients cancelled): "0 <= c" is what the parser reads back as that term
+        return "0"
     return res
 
 
